@@ -98,6 +98,33 @@ theorem listSum_range_map [AddCommMonoid α] (n : Nat) (f : Nat → α) :
   apply Finset.sum_congr _ (fun _ _ => rfl)
   ext i; simp
 
+/-! ### the additivity guard of the repaired `_normalize_icg` (`np.isclose(surplus + Σ, Σ, rtol, atol = 0)`) -/
+
+section additive
+variable [Field α] [LinearOrder α] [DecidableLE α]
+
+omit [DecidableLE α] in
+/-- the model's `np.abs` is the absolute value -/
+theorem absN_eq_abs (x : α) : absN x = |x| := (abs_eq_max_neg (a := x)).symm
+
+/-- in exact arithmetic `(surplus + Σ) − Σ` is the surplus: the guard says `|surplus| ≤ rtol · |Σ singletons|` -/
+theorem isAdditive_iff (rtol sur : α) (sv : List α) :
+    isAdditive rtol (sur, sv) = true ↔ |sur| ≤ rtol * |listSum sv| := by
+  simp only [isAdditive, decide_eq_true_iff, absN_eq_abs, add_sub_cancel_right]
+
+/-- the closed form of the guard -/
+theorem closedAdditive_iff (n : Nat) (rtol : α) (v : Nat → α) :
+    closedAdditive n rtol v = true ↔
+      |closedW v (grand n)| ≤ rtol * |∑ i ∈ range n, v (2 ^ i)| := by
+  simp only [closedAdditive, decide_eq_true_iff, absN_eq_abs, singleton, listSum_range_map]
+
+/-- the guard evaluated on what `_get_norminfo` returns for a complete table is the closed form of the guard -/
+theorem isAdditive_closed (n : Nat) (rtol : α) (v : Nat → α) :
+    isAdditive rtol (closedW v (grand n), (List.range n).map (fun i => v (2 ^ i))) = closedAdditive n rtol v := by
+  rw [Bool.eq_iff_iff, isAdditive_iff, closedAdditive_iff, listSum_range_map]
+
+end additive
+
 /-! ### masks -/
 
 theorem two_pow_sub_of_testBit {c i : Nat} (h : c.testBit i = true) : 2 ^ i &&& c = 2 ^ i := by
